@@ -180,38 +180,32 @@ fn wall_geometry(wall: &hulc::bdl::Wall, bdl: &Data) -> Result<WallGeom, Error> 
     let global_deviation = global_deviation_from_north(bdl);
 
     // Calculamos la posición en coordenadas globales, teniendo en cuenta las posiciones y desviaciones
-    // La posición del opaco es en coordenadas globales, incluyendo un giro en Z según desviación global del norte y la desviación del espacio
+    // Un punto del espacio se gira con el espacio alrededor de su origen, se traslada al origen del espacio
+    // (que está en coordenadas del edificio) y, finalmente, se gira con la desviación global del norte.
     // Los ángulos los cambiamos a radianes y de sentido horario (criterio BDL) a antihorario (-).
-    let angle = -(space.angle_with_building_north + global_deviation).to_radians();
-    let rot = Rotation3::from_euler_angles(0.0, 0.0, angle);
-    let position = rot
-        * match wall.location.as_deref() {
-            // 1. Casos definidos por vértice
-            Some(loc) if loc != "TOP" && loc != "BOTTOM" => {
-                let [p1, _] = space.polygon.edge_vertices(loc).ok_or_else(|| {
-                    format_err!("Vértice {} del opaco {} no encontrado en el polígono del espacio", loc, wall.name)
-                })?;
-                point![
-                    p1.x + wall.x + space.x,
-                    p1.y + wall.y + space.y,
-                    wall.z + space.z
-                ]
-            }
-            // 2. Casos definidos mediante polígono o por el espacio
-            _ => {
-                let height = match wall.location.as_deref() {
-                    // Los elementos top definidos por el polígono del espacio necesitan añadir la altura en su z
-                    Some("TOP") if wall.polygon.is_none() => space.height,
-                    // El resto de los definidos por polígono (sin ser el de espacio) ya tienen en la Z la cota final
-                    _ => 0.0,
-                };
-                point![
-                    wall.x + space.x,
-                    wall.y + space.y,
-                    wall.z + space.z + height
-                ]
-            }
-        };
+    let space_rot = Rotation3::from_euler_angles(0.0, 0.0, -space.angle_with_building_north.to_radians());
+    let global_rot = Rotation3::from_euler_angles(0.0, 0.0, -global_deviation.to_radians());
+    let space_origin = Vector3::new(space.x, space.y, space.z);
+    let local = match wall.location.as_deref() {
+        // 1. Casos definidos por vértice
+        Some(loc) if loc != "TOP" && loc != "BOTTOM" => {
+            let [p1, _] = space.polygon.edge_vertices(loc).ok_or_else(|| {
+                format_err!("Vértice {} del opaco {} no encontrado en el polígono del espacio", loc, wall.name)
+            })?;
+            point![p1.x + wall.x, p1.y + wall.y, wall.z]
+        }
+        // 2. Casos definidos mediante polígono o por el espacio
+        _ => {
+            let height = match wall.location.as_deref() {
+                // Los elementos top definidos por el polígono del espacio necesitan añadir la altura en su z
+                Some("TOP") if wall.polygon.is_none() => space.height,
+                // El resto de los definidos por polígono (sin ser el de espacio) ya tienen en la Z la cota final
+                _ => 0.0,
+            };
+            point![wall.x, wall.y, wall.z + height]
+        }
+    };
+    let position = global_rot * (space_rot * local + space_origin);
 
     let polygon = match (wall.location.as_deref(), &wall.polygon) {
         // 1. Elementos definidos por polígono
@@ -219,20 +213,18 @@ fn wall_geometry(wall: &hulc::bdl::Wall, bdl: &Data) -> Result<WallGeom, Error> 
         (None | Some("TOP"), Some(ref polygon)) => polygon.as_vec(),
         // 3. Elementos TOP definidos por la geometría de su espacio
         (Some("TOP"), None) => {
-            // Giramos el polígono según la desviación respecto al norte del opaco y el espacio
-            // El giro global del edificio respecto al norte ya está incluido
-            let azimuth = orientation_bdl_to_52016(
-                space.angle_with_building_north + wall.angle_with_space_north,
-            );
+            // El polígono del espacio está en coordenadas de espacio y el azimuth de la geometría ya incluye
+            // los giros global, del espacio y del opaco. Deshacemos aquí el giro propio del opaco (y los 180º del
+            // cambio de criterio) para que el contorno quede girado solo con el espacio y el edificio
+            let azimuth = normalize_azimuth(180.0 + wall.angle_with_space_north);
             space_polygon.rotate(azimuth.to_radians()).as_vec()
         }
         // 4. Elementos BOTTOM definidos por la geometría de su espacio
         (Some("BOTTOM"), None) => {
-            // Giramos el polígono según la desviación respecto al norte del opaco y el espacio
-            // El giro global del edificio respecto al norte ya está incluido
-            let azimuth = orientation_bdl_to_52016(
-                space.angle_with_building_north + wall.angle_with_space_north,
-            );
+            // El polígono del espacio está en coordenadas de espacio y el azimuth de la geometría ya incluye
+            // los giros global, del espacio y del opaco. Deshacemos aquí el giro propio del opaco (y los 180º del
+            // cambio de criterio) para que el contorno quede girado solo con el espacio y el edificio
+            let azimuth = normalize_azimuth(180.0 + wall.angle_with_space_north);
             // Hacemos un mirror (y -> -y para cada punto) sobre el eje X para que el giro del tilt 180 lo deje igual
             space_polygon
                 .rotate(azimuth.to_radians())
